@@ -743,18 +743,18 @@ func (r *Relay) disconnected(n network.Network, c network.Conn) {
 	_, ok := r.rsvp[p]
 	if ok {
 		delete(r.rsvp, p)
+		// The peer may still hold a limited (relayed) connection to us, in
+		// which case the connection manager keeps its tags: the reservation is
+		// gone, so must be its tag. As in handleReserve and gc, the tag changes
+		// together with the reservation, under the lock: untagging after the
+		// unlock could remove the tag of a reservation made in between.
+		r.host.ConnManager().UntagPeer(p, "relay-reservation")
 	}
 	r.constraints.cleanupPeer(p)
 	r.mx.Unlock()
 
-	if ok {
-		// The peer may still hold a limited (relayed) connection to us, in
-		// which case the connection manager keeps its tags: the reservation is
-		// gone, so must be its tag.
-		r.host.ConnManager().UntagPeer(p, "relay-reservation")
-		if r.metricsTracer != nil {
-			r.metricsTracer.ReservationClosed(1)
-		}
+	if ok && r.metricsTracer != nil {
+		r.metricsTracer.ReservationClosed(1)
 	}
 }
 
